@@ -422,6 +422,12 @@ func restart(scratch string, im *image, cfg restartCfg) (startCalls []recfs.Call
 	}()
 	startCalls, unused := fs.End()
 	if len(unused) > 0 {
+		if cfg.Allow && !cfg.NoRestore && err == nil && pan == "" {
+			// every recorded remote snapshot must be attempted when invalid mounts are tolerated: a scripted
+			// mount failure that was never asked for means restore skipped a snapshot it had to re-mount
+			add("restart/restore-skipped-recorded-remote-snapshot", "restore tolerated a failing mount and then did not attempt to re-mount %v although the start succeeded", unused)
+			return startCalls, "restore-incomplete", out, nil
+		}
 		return startCalls, "", nil, fmt.Errorf("restart %s: scripted failures %v not consumed", cfg, unused)
 	}
 	if pan != "" {
